@@ -624,3 +624,30 @@ def run_parallel(worker, tasks, procs=16):
     with ctx.Pool(procs) as pool:
         for res in pool.imap_unordered(worker, tasks, chunksize=1):
             yield res
+
+
+class CallTimeout(Exception):
+    """The call under test did not return within the limit (treated as 'does not terminate')."""
+
+
+class time_limit:
+    """``with time_limit(2.0): call()`` -- raises CallTimeout in the calling (main) thread of the process
+    when the real-time limit passes.  The calls concerned normally take well under a millisecond."""
+
+    def __init__(self, seconds):
+        self.seconds = seconds
+
+    def _fire(self, signum, frame):
+        raise CallTimeout("no result after %.1f s" % self.seconds)
+
+    def __enter__(self):
+        import signal
+        self._old = signal.signal(signal.SIGALRM, self._fire)
+        signal.setitimer(signal.ITIMER_REAL, self.seconds)
+        return self
+
+    def __exit__(self, *exc):
+        import signal
+        signal.setitimer(signal.ITIMER_REAL, 0)
+        signal.signal(signal.SIGALRM, self._old)
+        return False
